@@ -296,6 +296,233 @@ def dyadic_v(rng, n, scale_bits=0):
     return [Fraction(rng.randrange(-64, 65), 2 ** e) * 2 ** scale_bits for _ in range(n)]
 
 
+
+# ------------------------------------------------------------------ hardening helpers (shared with c01.py)
+def is_pow2(fr):
+    d = Fraction(fr).denominator
+    return d & (d - 1) == 0
+
+
+def canon_args(form):
+    """canonical constructor arguments of a formulation: float64 / int64 ndarrays, python float beta"""
+    return form.args
+
+
+def dressings(form, inst, rng):
+    """(label, args) variants of the constructor arguments with the same meaning as form.args:
+    lists / tuples, int32 / intp / uint8 index arrays, float32 data (only where exactly representable),
+    F-ordered copies, non-contiguous views into larger arrays, scipy CSR/CSC/COO/LIL matrices, NumPy scalar beta"""
+    import scipy.sparse as sp
+    out = []
+    args = list(form.args)
+    q_exact32 = all(is_pow2(x) for rows in inst.Q for q in rows for x in q)
+    b_exact32 = is_pow2(inst.beta)
+    R, Qm, beta = args[0], args[1], args[2]
+    sparse = hasattr(Qm, "toarray")
+    Qd = Qm.toarray() if sparse else np.asarray(Qm)
+
+    def with_(i, val):
+        a = list(args); a[i] = val; return a
+    out.append(("R:list", with_(0, np.asarray(R).tolist())))
+    out.append(("R:float32", with_(0, np.asarray(R).astype(np.float32))))
+    if not np.isinf(np.asarray(R)).any():
+        out.append(("R:int32", with_(0, np.asarray(R).astype(np.int32))))
+    big = np.full((2 * R.shape[0],) + R.shape[1:], 7.0); big[::2] = R
+    out.append(("R:noncontiguous view", with_(0, big[::2])))
+    if form.kind == "product":
+        out.append(("R:F-order", with_(0, np.asfortranarray(R))))
+    if not sparse:
+        out.append(("Q:nested list", with_(1, Qd.tolist())))
+        out.append(("Q:F-order", with_(1, np.asfortranarray(Qd))))
+        bigq = np.full((2 * Qd.shape[0],) + Qd.shape[1:], 0.5); bigq[::2] = Qd
+        out.append(("Q:noncontiguous view", with_(1, bigq[::2])))
+        if q_exact32:
+            out.append(("Q:float32", with_(1, Qd.astype(np.float32))))
+    else:
+        for nm in ("csr_matrix", "csc_matrix", "coo_matrix", "lil_matrix", "csr_array"):
+            if hasattr(sp, nm):
+                out.append(("Q:" + nm, with_(1, getattr(sp, nm)(Qd))))
+        if q_exact32:
+            out.append(("Q:csr float32", with_(1, sp.csr_matrix(Qd.astype(np.float32)))))
+    out.append(("beta:np.float64", with_(2, np.float64(beta))))
+    if b_exact32:
+        out.append(("beta:np.float32", with_(2, np.float32(beta))))
+    if inst.beta in (0, 1):
+        out.append(("beta:python int", with_(2, int(inst.beta))))
+        out.append(("beta:np.int64", with_(2, np.int64(int(inst.beta)))))
+    if form.kind != "product":
+        s_, a_ = [int(x) for x in args[3]], [int(x) for x in args[4]]
+        for nm, conv in (("list", list), ("tuple", tuple), ("int32", lambda z: np.array(z, dtype=np.int32)),
+                         ("intp", lambda z: np.array(z, dtype=np.intp)), ("uint8", lambda z: np.array(z, dtype=np.uint8))):
+            a2 = list(args); a2[3] = conv(s_); a2[4] = conv(a_)
+            out.append(("indices:" + nm, a2))
+        bs = np.zeros(2 * len(s_), dtype=int); bs[::2] = s_; ba = np.zeros(2 * len(a_), dtype=int); ba[::2] = a_
+        a2 = list(args); a2[3] = bs[::2]; a2[4] = ba[::2]
+        out.append(("indices:noncontiguous view", a2))
+    return out
+
+
+def snapshot_args(args):
+    snap = []
+    for x in args:
+        if hasattr(x, "toarray"):
+            snap.append(("sparse", type(x).__name__, x.toarray().copy()))
+        elif isinstance(x, np.ndarray):
+            snap.append(("array", x.dtype.str, x.copy()))
+        else:
+            snap.append(("other", None, repr(x)))
+    return snap
+
+
+def args_unchanged(args, snap):
+    for x, (kind, meta, old) in zip(args, snap):
+        if kind == "sparse":
+            if type(x).__name__ != meta or not np.array_equal(x.toarray(), old):
+                return False
+        elif kind == "array":
+            if x.dtype.str != meta or not np.array_equal(x, old):
+                return False
+        elif repr(x) != old:
+            return False
+    return True
+
+
+def ops_signature(d, vint, sgi, beta_lt1):
+    """results of every operator of C09 on integer-valued v and a feasible policy"""
+    from quantecon.markov import backward_induction
+    v = np.array(vint, dtype=float); sg = np.array(sgi)
+    R_, Q_ = d.RQ_sigma(sg)
+    out = [np.array(d.bellman_operator(v)), np.array(d.compute_greedy(v)), np.array(d.T_sigma(sg)(v)),
+           np.array(R_), dense(Q_), dense(d.controlled_mc(sg).P)]
+    V_, S_ = backward_induction(d, 2, v)
+    out += [V_, S_]
+    if beta_lt1:
+        out.append(np.array(d.evaluate_policy(sg)))
+    return out
+
+
+def same_results(a, b, exact=True, dtype_strict=True):
+    if len(a) != len(b):
+        return False
+    for x, y in zip(a, b):
+        x = np.asarray(x); y = np.asarray(y)
+        if x.shape != y.shape:
+            return False
+        if x.dtype.kind in "iu" and y.dtype.kind in "iu":
+            if not np.array_equal(x, y):
+                return False
+        elif exact:
+            if (dtype_strict and x.dtype != y.dtype) or not np.array_equal(x, y):
+                return False
+        elif not np.allclose(x, y, rtol=1e-11, atol=1e-11):
+            return False
+    return True
+
+
+def harden_ops(ctx, inst, form, ddp, inp, rng, thorough):
+    """classes 1-3, 5 of the hardening audit for the operators: dress/dtype of the constructor arguments,
+    state and sequences on one object (attribute re-assignment, several objects alive), non-mutation of arguments,
+    garbage-prefilled reused buffers, conversions applied repeatedly and to each other's outputs"""
+    from quantecon.markov import DiscreteDP
+    vint = [rng.randrange(-5, 6) for _ in range(inst.n)]
+    sgi = [rng.choice(inst.feasible(s_)) for s_ in range(inst.n)]
+    lt1 = inst.beta < 1
+    sparse = "sparse" in form.kind
+    snap = snapshot_args(form.args)
+    ref = ops_signature(ddp, vint, sgi, lt1)
+    # 1. dress / dtype
+    variants = dressings(form, inst, rng)
+    if not thorough:
+        variants = rng.sample(variants, min(4, len(variants)))
+    for label, args in variants:
+        asnap = snapshot_args(args)
+        d2 = DiscreteDP(*args)
+        got = ops_signature(d2, vint, sgi, lt1)
+        g_, r_ = list(got), list(ref)
+        if "float32" in label and label.startswith("Q") and lt1:
+            # float32 transition data: beta*Q_sigma and the linear solve are carried out in float32 (documented NumPy promotion),
+            # so evaluate_policy is only float32-accurate; every other operator is exact on this data
+            if not np.allclose(g_[-1], r_[-1], rtol=1e-4, atol=1e-4):
+                g_[0] = None
+            g_, r_ = g_[:-1], r_[:-1]
+        if g_[0] is None or not same_results(g_, r_, exact=(inst.dyadic and not sparse), dtype_strict=False) or got[0].dtype != np.float64 \
+                or got[2].dtype != np.float64 or got[6].dtype != np.float64:
+            ctx.fail("dress", "operators depend on the type/dtype/layout in which the constructor arguments are passed",
+                     dict(inp, dress=label, v=vint, sigma=sgi), [jsonable(x) for x in got[:3]], [jsonable(x) for x in ref[:3]])
+        if not args_unchanged(args, asnap):
+            ctx.fail("argument_mutated", "DiscreteDP modified a constructor argument", dict(inp, dress=label), None, None)
+        ctx.count("dress:" + label)
+    # 3. non-mutation of the canonical arguments and of the object's data
+    if not args_unchanged(form.args, snap):
+        ctx.fail("argument_mutated", "DiscreteDP or an operator modified a constructor argument", inp, None, None)
+    again = ops_signature(ddp, vint, sgi, lt1)
+    if not same_results(again, ref):
+        ctx.fail("state", "repeating the operator calls on the same object changes the results", dict(inp, v=vint, sigma=sgi), None, None)
+    ctx.count("seq:repeat all operators")
+    # garbage-prefilled, reused output buffers
+    Tv = np.full(inst.n, np.nan); sgb = np.full(inst.n, -7, dtype=int)
+    for rep in range(2):
+        r = ddp.bellman_operator(np.array(vint, dtype=float), Tv=Tv, sigma=sgb)
+        if r is not Tv or not np.array_equal(Tv, ref[0]) or not np.array_equal(sgb, ref[1]):
+            ctx.fail("buffer", "garbage-prefilled / reused Tv, sigma buffers give a different result", dict(inp, v=vint, reuse=rep), {"Tv": Tv, "sigma": sgb}, None)
+        Tv[:] = np.inf; sgb[:] = 99
+    ctx.count("buffer:prefilled+reused")
+    # 2. attribute re-assignment and several objects alive at once
+    b2 = 0.25 if inst.beta != Fraction(1, 4) else 0.75
+    other = DiscreteDP(*form.args)
+    other.beta = b2
+    fresh = DiscreteDP(form.args[0], form.args[1], b2, *form.args[3:])
+    o1 = ops_signature(other, vint, sgi, True); f1 = ops_signature(fresh, vint, sgi, True)
+    mine = ops_signature(ddp, vint, sgi, lt1)          # the original object, interleaved with the two others
+    if not same_results(o1, f1, exact=not sparse):
+        ctx.fail("state", "re-assigning .beta on an existing object does not give the results of a fresh object", dict(inp, beta=b2), None, None)
+    if not same_results(mine, ref):
+        ctx.fail("state", "another DiscreteDP object alive changes the results of this one", inp, None, None)
+    ctx.count("seq:reassign beta"); ctx.count("seq:several objects alive")
+    # conversions applied repeatedly and to each other's outputs
+    a1 = ddp.to_sa_pair_form(sparse=False); p1 = a1.to_product_form(); a2 = p1.to_sa_pair_form(sparse=True); p2 = a2.to_product_form()
+    a3 = p2.to_sa_pair_form(sparse=False)
+    base = [np.array(ddp.bellman_operator(np.array(vint, dtype=float))), np.array(ddp.compute_greedy(np.array(vint, dtype=float)))]
+    conds = {"to_sa_pair_form of sa is self": a1.to_sa_pair_form() is a1, "to_product_form of product is self": p1.to_product_form() is p1}
+    for nm_, dd in (("sa1", a1), ("prod1", p1), ("sa2", a2), ("prod2", p2), ("sa3", a3)):
+        conds["bellman on " + nm_] = bool(np.allclose(dd.bellman_operator(np.array(vint, dtype=float)), base[0], rtol=1e-12, atol=1e-12))
+        # the action LABELS are preserved by both conversions, so the greedy policies agree (ties: same first maximiser
+        # because both forms list a state's actions in increasing label order -- except for an sa form given with -inf pairs)
+        if not np.isinf(form.args[0]).any() or form.kind == "product":
+            conds["greedy on " + nm_] = bool(np.array_equal(dd.compute_greedy(np.array(vint, dtype=float)), base[1]))
+    def feas_(pp):
+        return {(s_, a_): (float(pp.R[s_, a_]), tuple(pp.Q[s_, a_])) for s_ in range(pp.R.shape[0]) for a_ in range(pp.R.shape[1]) if pp.R[s_, a_] > -np.inf}
+    conds["prod1 == prod2 on feasible pairs"] = feas_(p1) == feas_(p2)
+    conds["sa2 == sa3"] = bool(np.array_equal(a3.s_indices, a2.s_indices) and np.array_equal(a3.a_indices, a2.a_indices) and np.array_equal(a3.R, a2.R)
+                              and np.array_equal(dense(a3.Q), dense(a2.Q)))
+    conds["arguments unchanged"] = args_unchanged(form.args, snap)
+    if not all(conds.values()):
+        ctx.fail("form_conversion", "to_sa_pair_form / to_product_form applied repeatedly and to each other's outputs do not preserve the problem",
+                 dict(inp, v=vint, failed=[k_ for k_, ok_ in conds.items() if not ok_]), None, None)
+    ctx.count("seq:conversion chain sa->prod->sa->prod->sa")
+
+
+def expected_errors(ctx):
+    """class 6: documented ValueErrors are raised (and nothing else)"""
+    from quantecon.markov import DiscreteDP
+    R = np.array([[1.0, 2.0], [0.0, 1.0]]); Q = np.zeros((2, 2, 2)); Q[:, :, 0] = 1
+    RL = np.array([1.0, 2.0, 0.0]); QL = np.array([[1.0, 0.0]] * 3); s_, a_ = [0, 0, 1], [0, 1, 0]
+    bad = [("beta<0", lambda: DiscreteDP(R, Q, -0.1)), ("beta>1", lambda: DiscreteDP(R, Q, 1.5)),
+           ("Q 1-d", lambda: DiscreteDP(R, np.zeros(4), 0.5)), ("R 3-d", lambda: DiscreteDP(np.zeros((2, 2, 2)), Q, 0.5)),
+           ("shape mismatch", lambda: DiscreteDP(np.zeros((2, 3)), Q, 0.5)), ("sa without s_indices", lambda: DiscreteDP(RL, QL, 0.5)),
+           ("sa without a_indices", lambda: DiscreteDP(RL, QL, 0.5, s_indices=s_)), ("index length mismatch", lambda: DiscreteDP(RL, QL, 0.5, s_[:2], a_)),
+           ("R length mismatch", lambda: DiscreteDP(RL[:2], QL, 0.5, s_, a_)),
+           ("invalid method", lambda: DiscreteDP(R, Q, 0.5).solve(method="nope"))]
+    for name, f in bad:
+        try:
+            f()
+            ctx.fail("expected_error", "no ValueError for: " + name, {"case": name}, "no exception", "ValueError")
+        except ValueError:
+            ctx.count("expected ValueError:" + name)
+        except Exception as e:
+            ctx.fail("expected_error", "wrong exception for: " + name, {"case": name}, repr(e), "ValueError")
+
+
 # ------------------------------------------------------------------ the check
 def run(ctx):
     thorough = ctx.tier == "thorough"
@@ -304,7 +531,7 @@ def run(ctx):
     warnings.filterwarnings("ignore")
     from quantecon.markov import DiscreteDP, backward_induction
 
-    n_inst = 450 if thorough else 70
+    n_inst = 450 if thorough else 60
     insts = []
     # hand-made corner cases first: single state, all ties, beta in {0,1}
     insts.append(Inst(1, 1, [[Fraction(2)]], [[[Fraction(1)]]], Fraction(1, 2), True, "corner"))
@@ -313,6 +540,8 @@ def run(ctx):
     insts.append(Inst(2, 2, [[Fraction(5), Fraction(10)], [Fraction(-1), None]],
                       [[[Fraction(1, 2), Fraction(1, 2)], [Fraction(0), Fraction(1)]], [[Fraction(0), Fraction(1)], [Fraction(1, 2), Fraction(1, 2)]]],
                       Fraction(19, 20), False, "puterman"))
+    insts.append(gen_inst(rng, n=3, m=2, beta=Fraction(1023, 1024)))       # beta next to 1
+    insts.append(gen_inst(rng, n=1, m=3, beta=Fraction(0)))
     while len(insts) < n_inst:
         insts.append(gen_inst(rng, nmax=6 if thorough else 5, mmax=5 if thorough else 4, allow_beta1=True))
 
@@ -472,6 +701,10 @@ def run(ctx):
                     bell_exact.append(tup(form.coq, "[" + "; ".join(tests_exact) + "]")); meta_exact.append(inp)
                 if tests_close:
                     bell_close.append(tup(form.coq, "[" + "; ".join(tests_close) + "]")); meta_close.append(inp)
+
+                # ---- hardening audit: dress/dtype, state, non-mutation, buffers, conversion chains
+                if thorough or ii % 3 == 0:
+                    harden_ops(ctx, inst, form, ddp, inp, rng, thorough)
 
                 # ---- call SEQUENCES on one DiscreteDP object: every returned array is kept and checked only at the END
                 # (a result must not be overwritten by a later call; results of different calls must not alias)
@@ -695,6 +928,7 @@ def run(ctx):
                         conv_cases, chunk=100, preamble=PREAMBLE)
     report(bad, "C09.Model.to_sa_pair_form/to_product_form vs DiscreteDP", conv_meta)
 
+    expected_errors(ctx)
     constructor_rejection(ctx, thorough)
 
 
